@@ -708,7 +708,8 @@ theorem repair_cut {files : Nat → Bytes} {H m : Nat} :
         rw [this]
         simp [repair, h0]
       · have hpos : 0 < ((setFile files H ((files H).take m)) 0).length := Nat.pos_of_ne_zero h0
-        simp [repair, h0, hpos, setLen]
+        have h0' : ¬ 0 = ((setFile files H ((files H).take m)) 0).length := fun h => h0 h.symm
+        simp [repair, h0', hpos, setLen]
     · simp [RChain]
     · simp
     · exact Or.inr (Nat.zero_le _)
@@ -764,5 +765,122 @@ theorem repair_cut {files : Nat → Bytes} {H m : Nat} :
           · rw [setFile_other _ _ _ _ hfe']; exact hle
       obtain ⟨files', h1, h2, h3⟩ := repair_junk_head hchainF hleF
       exact ⟨0, files', e, p :: rest0, Nat.zero_le _, by simp, rfl, h1, by simpa using h2, h3, hcomplete⟩
+
+def cutLen (fl : Option Nat) : Nat :=
+  match fl with
+  | none => 0
+  | some n => n
+
+theorem cutOf_eq_take (fl : Option Nat) (b : Bytes) : cutOf fl b = b.take (cutLen fl) := by
+  cases fl <;> simp [cutOf, cutLen]
+
+theorem applyCut_idx_take (d : Disk) (il fid : Nat) (fl : Option Nat) (ht : d.tail = 0) :
+    (applyCut d il fid fl).idx = d.idx.take (il / INDEX_ENTRY_SIZE) := by
+  by_cases h : il ≥ d.idxSize
+  · rw [applyCut_idx_full _ _ _ _ h]
+    symm
+    apply List.take_of_length_le
+    unfold Disk.idxSize at h
+    rw [ht] at h
+    have hp := entry_size_pos
+    rw [Nat.le_div_iff_mul_le hp, Nat.mul_comm]
+    omega
+  · unfold applyCut Disk.cutIdx Disk.cutFile
+    cases fl <;> simp [h]
+
+/-- **Any crash cut.**  `d` holds `items`.  The index file is cut to `il` bytes (at least the
+    default entry survives) and the head data file to `cutLen fl` bytes, older data files being
+    intact.  Re-opening succeeds and yields a prefix `items.take n`; every item whose index entry
+    and data both survived the cut is in that prefix. -/
+theorem crash_any_cut_aux {h : Handle} {d : Disk} {items : List Bytes}
+    (g : Good d items) (hk : HandleOk h d) (il : Nat) (fl : Option Nat)
+    (hil : INDEX_ENTRY_SIZE ≤ il) :
+    ∃ h2 d2 n, openWith true (applyCut d il h.headId fl) = some (h2, d2) ∧ HandleOk h2 d2 ∧
+      n ≤ items.length ∧ Good d2 (items.take n) ∧
+      (∀ i e, i < items.length → d.idx[i + 1]? = some e → INDEX_ENTRY_SIZE * (i + 2) ≤ il →
+        (e.fid < h.headId ∨ e.off ≤ cutLen fl) → i < n) := by
+  obtain ⟨e0, rest0, hr⟩ := g.rev_ne_nil
+  obtain ⟨hid, _⟩ := hk.2 e0 rest0 hr
+  have hL := g.idx_length
+  have hp := entry_size_pos
+  -- how many index entries survive
+  let K := min (il / INDEX_ENTRY_SIZE) d.idx.length
+  have hK1 : 1 ≤ K := by
+    have : 1 ≤ il / INDEX_ENTRY_SIZE := by rw [Nat.le_div_iff_mul_le hp]; omega
+    show 1 ≤ min _ _; omega
+  have hK2 : K ≤ d.idx.length := Nat.min_le_right _ _
+  have hidx : (applyCut d il h.headId fl).idx = d.idx.take K := by
+    rw [applyCut_idx_take _ _ _ _ g.tail0]
+    show _ = d.idx.take (min _ _)
+    rw [List.take_eq_take_min]
+  have hfiles : (applyCut d il h.headId fl).files =
+      setFile d.files h.headId ((d.files h.headId).take (cutLen fl)) := by
+    rw [applyCut_files, cutOf_eq_take]
+  -- the surviving chain
+  let c := d.idx.length - K
+  have hc : c ≤ items.length := by show d.idx.length - K ≤ _; omega
+  have hrevK : (d.idx.take K).reverse = d.idx.reverse.drop c := by
+    rw [List.reverse_take]
+  have hchainK : RChain d.files (d.idx.reverse.drop c) (items.reverse.drop c) :=
+    RChain.drop c (by simpa using hc) g.chain
+  have hfids : ∀ q ∈ d.idx.reverse.drop c, q.fid ≤ h.headId := by
+    intro q hq
+    have hq' : q ∈ d.idx.reverse := List.mem_of_mem_drop hq
+    rw [hr] at hq'
+    have hchain := g.chain
+    rw [hr] at hchain
+    rcases List.mem_cons.mp hq' with rfl | hq''
+    · omega
+    · have := RChain.fid_le rfl hchain q hq''; omega
+  obtain ⟨e, rest, hne⟩ : ∃ e rest, d.idx.reverse.drop c = e :: rest := by
+    have hlen : (d.idx.reverse.drop c).length = K := by simp; show d.idx.length - (d.idx.length - K) = K; omega
+    match hm : d.idx.reverse.drop c with
+    | [] => rw [hm] at hlen; simp at hlen; omega
+    | e :: rest => exact ⟨e, rest, rfl⟩
+  obtain ⟨j, files', e', rest', hj, hdropped, hdrop, hrep, hch, hlen', hkept⟩ :=
+    repair_cut (H := h.headId) (m := cutLen fl) _ _ hchainK hfids e rest hne
+  have hrevc : (applyCut d il h.headId fl).idx.reverse = e :: rest := by
+    rw [hidx, hrevK, hne]
+  rw [hne] at hrep
+  rw [← hfiles] at hrep
+  obtain ⟨hh, ho, hn, hi, hb⟩ := openWith_of_repair hrevc hrep
+  -- the surviving items
+  have hitems : (items.reverse.drop c).drop j = (items.take (items.length - (c + j))).reverse := by
+    rw [List.drop_drop, List.drop_reverse]
+  have hjle : j ≤ items.length - c := by simpa using hj
+  refine ⟨hh, _, items.length - (c + j), ho, ?_, by omega, ⟨rfl, ?_, ?_⟩, ?_⟩
+  · refine ⟨by rw [hn]; simp, ?_⟩
+    intro e'' rest'' hr''; simp at hr''; obtain ⟨rfl, _⟩ := hr''; exact ⟨hi, hb⟩
+  · show RChain files' ((e' :: rest').reverse).reverse _
+    rw [List.reverse_reverse, ← hitems]; exact hch
+  · intro e'' rest'' hr''; simp at hr''; obtain ⟨rfl, _⟩ := hr''; exact hlen'
+  · -- every fully surviving item is kept
+    intro i ei hi1 hei hil' hcomplete
+    rcases Nat.lt_or_ge i (items.length - (c + j)) with hlt | hge
+    · exact hlt
+    · exfalso
+      -- entry i+1 is inside the kept index …
+      have hiK : i + 2 ≤ K := by
+        have : i + 2 ≤ il / INDEX_ENTRY_SIZE := by
+          rw [Nat.le_div_iff_mul_le hp, Nat.mul_comm]; exact hil'
+        show i + 2 ≤ min _ _; omega
+      -- … and among the `j` dropped entries, which are all incomplete
+      have hmem : ei ∈ (d.idx.reverse.drop c).take j := by
+        rw [List.mem_iff_getElem?]
+        refine ⟨d.idx.length - c - 1 - (i + 1), ?_⟩
+        have hlt2 : d.idx.length - c - 1 - (i + 1) < j := by
+          show d.idx.length - (d.idx.length - K) - 1 - (i + 1) < j
+          have : c = d.idx.length - K := rfl
+          omega
+        rw [List.getElem?_take]
+        simp only [hlt2, if_true]
+        rw [List.getElem?_drop, List.getElem?_reverse (by
+          show (d.idx.length - K) + _ < _; omega)]
+        have : d.idx.length - 1 - (c + (d.idx.length - c - 1 - (i + 1))) = i + 1 := by
+          show d.idx.length - 1 - ((d.idx.length - K) + (d.idx.length - (d.idx.length - K) - 1 - (i + 1))) = i + 1
+          omega
+        rw [this]; exact hei
+      have := hdropped ei hmem
+      rcases hcomplete with h1 | h1 <;> omega
 
 end CkbVerif.Freezer
